@@ -169,6 +169,7 @@ type Config struct {
 	HTML    bool `json:"html"`
 	Cached  bool `json:"cached"`
 	Helpers bool `json:"helpers"`
+	Overlap bool `json:"overlapping_definitions,omitempty"`
 }
 
 func ext(html bool) string {
@@ -181,6 +182,11 @@ func ext(html bool) string {
 func newFS(cfg Config) filesystem.Filespace {
 	fs, _ := memfs.NewFilespace()
 	fl := files(ext(cfg.HTML), cfg.Helpers)
+	if cfg.Overlap {
+		for p, t := range overlapFiles {
+			fl[p+ext(cfg.HTML)] = t
+		}
+	}
 	var ps []string
 	for p := range fl {
 		ps = append(ps, p)
@@ -488,7 +494,7 @@ func run(c *fw.Ctx) {
 					}
 				}
 				if strings.Join(outs[0], "\x00") != strings.Join(outs[1], "\x00") {
-					report(&finding{"cached-differs-from-uncached", "the result is the same with caching on or off", fmt.Sprintf("html=%v helpers=%v requests %v: cached outputs %q, uncached outputs %q", html, helpers, reqs, outs[0], outs[1])}, map[string]interface{}{"seq": seqWit{Config{html, true, helpers}, reqs}})
+					report(&finding{"cached-differs-from-uncached", "the result is the same with caching on or off", fmt.Sprintf("html=%v helpers=%v requests %v: cached outputs %q, uncached outputs %q", html, helpers, reqs, outs[0], outs[1])}, map[string]interface{}{"seq": seqWit{Config{HTML: html, Cached: true, Helpers: helpers}, reqs}})
 				}
 			}
 		}
@@ -517,6 +523,10 @@ func run(c *fw.Ctx) {
 				}
 			}
 		}
+	}
+	runOverlap(c)
+	if c.R.InfraError != "" {
+		return
 	}
 	// concurrent first use
 	ps := programs(c.Thorough())
@@ -550,6 +560,14 @@ func replay(wj json.RawMessage) (*fw.Violation, error) {
 		Spec    Spec  `json:"spec"`
 		Choices []int `json:"choices"`
 	}
+	var ow struct {
+		Program string      `json:"program"`
+		Spec    OverlapSpec `json:"spec"`
+		Choices []int       `json:"choices"`
+	}
+	if err := json.Unmarshal(wj, &ow); err == nil && strings.HasPrefix(ow.Program, "overlap/") {
+		return explore.ReplayProgram(mkOverlap(ow.Spec), ow.Choices)
+	}
 	if err := json.Unmarshal(wj, &w); err != nil {
 		return nil, err
 	}
@@ -563,8 +581,8 @@ func replay(wj json.RawMessage) (*fw.Violation, error) {
 		_, f := runSequence(w.Seq.Config, w.Seq.Requests)
 		if f == nil {
 			// maybe a cached/uncached difference
-			a, _ := runSequence(Config{w.Seq.Config.HTML, true, w.Seq.Config.Helpers}, w.Seq.Requests)
-			b, _ := runSequence(Config{w.Seq.Config.HTML, false, w.Seq.Config.Helpers}, w.Seq.Requests)
+			a, _ := runSequence(Config{HTML: w.Seq.Config.HTML, Cached: true, Helpers: w.Seq.Config.Helpers}, w.Seq.Requests)
+			b, _ := runSequence(Config{HTML: w.Seq.Config.HTML, Cached: false, Helpers: w.Seq.Config.Helpers}, w.Seq.Requests)
 			if strings.Join(a, "\x00") != strings.Join(b, "\x00") {
 				return &fw.Violation{Property: "C19", Clause: "cache transparent", Signature: "C19/cached-differs-from-uncached", Detail: fmt.Sprintf("%q vs %q", a, b)}, nil
 			}
